@@ -64,7 +64,7 @@ theorem ownersW_modOwner (st : Core) (o : Nat) (f : OwnerRec → OwnerRec) (n : 
   · omega
 
 theorem ownersW_regCleanup (st : Core) (tag : Nat) :
-    ownersW (regCleanup st tag false).owners ≤ ownersW st.owners + 1 := by
+    ownersW (regCleanup st tag false none).owners ≤ ownersW st.owners + 1 := by
   unfold regCleanup
   simp only
   split
@@ -112,15 +112,20 @@ theorem step_decr (st : Core) (f : Frame) (fs : List Frame) :
       omega
     · simp [frameW]
   | run c ow late =>
-    simp only [stepFrame]
-    split
-    · next hn =>
-      have h1 := ownersW_regCleanup (logEv st (Ev.c c.tag c.cid ow late)) (c.tag + 100)
-      have h2 := ownersW_newStored (regCleanup (logEv st (Ev.c c.tag c.cid ow late)) (c.tag + 100) false) c.tag
-      simp [frameW, cleanupW, hn, logEv] at h1 h2 ⊢
+    have hcf : framesW (closureFrames c) = if c.drops.isSome then 1 else 0 := by
+      unfold closureFrames
+      cases c.drops <;> simp [frameW]
+    by_cases hn : c.nested = true
+    · have h1 := ownersW_regCleanup (logEv st (Ev.c c.tag c.cid ow late)) (c.tag + 100)
+      have h2 := ownersW_newStored (regCleanup (logEv st (Ev.c c.tag c.cid ow late)) (c.tag + 100) false none) c.tag
+      simp only [stepFrame, hn, if_true, framesW_append, framesW_cons, frameW, cleanupW, hcf]
+      have e1 : (logEv st (Ev.c c.tag c.cid ow late)).owners = st.owners := rfl
+      rw [e1] at h1
       omega
-    · have := frameW_pos (Frame.run c ow late)
-      simp [logEv] at this ⊢
+    · simp only [stepFrame, hn, if_false, Bool.false_eq_true, framesW_append, framesW_cons, frameW, cleanupW,
+        hcf]
+      have e1 : (logEv st (Ev.c c.tag c.cid ow late)).owners = st.owners := rfl
+      rw [e1]
       omega
   | remove k late =>
     simp only [stepFrame]
